@@ -156,6 +156,39 @@ var verifHandles map[*os.File]int
 var verifHandleKeeps map[*os.File]bool
 var verifOSCalls []string // every path handed to the operating system
 
+// verifScratch: directories created by os.MkdirTemp (names outside the
+// universe). Only their creation and removal is modelled: any other use of a
+// path below one is outside the bound. What is left of them after the request
+// shows up as an entry outside the universe.
+var verifScratch []string
+
+func verifStubMkdirTemp(dir, pattern string) (string, error) {
+	i := verifLocalIndex(dir)
+	if e := verifParentErr(i); e != 0 {
+		return "", &os.PathError{Op: "mkdir", Path: dir, Err: e}
+	}
+	switch verifFS.kind[i] {
+	case kAbsent:
+		return "", &os.PathError{Op: "mkdir", Path: dir, Err: syscall.ENOENT}
+	case kFile:
+		return "", &os.PathError{Op: "mkdir", Path: dir, Err: syscall.ENOTDIR}
+	}
+	name := strings.TrimSuffix(dir, "/") + "/" + strings.Replace(pattern, "*", "", -1) + "verif" + string(rune('0'+len(verifScratch)))
+	verifScratch = append(verifScratch, name)
+	return name, nil
+}
+
+// verifDropScratch removes a scratch directory; false if name is none.
+func verifDropScratch(name string) bool {
+	for i, s := range verifScratch {
+		if s == name {
+			verifScratch = append(verifScratch[:i:i], verifScratch[i+1:]...)
+			return true
+		}
+	}
+	return false
+}
+
 func verifLocalIndex(name string) int {
 	verifOSCalls = append(verifOSCalls, name)
 	if name == verifModelRoot {
@@ -351,6 +384,9 @@ func verifHasChildren(i int) bool {
 }
 
 func verifStubRemove(name string) error {
+	if verifDropScratch(name) {
+		return nil
+	}
 	i := verifLocalIndex(name)
 	if e := verifParentErr(i); e != 0 {
 		return &os.PathError{Op: "remove", Path: name, Err: e}
@@ -377,6 +413,9 @@ func verifRemoveSubtree(i int) {
 }
 
 func verifStubRemoveAll(name string) error {
+	if verifDropScratch(name) {
+		return nil
+	}
 	i := verifLocalIndex(name)
 	if e := verifParentErr(i); e != 0 {
 		if e == syscall.ENOENT {
@@ -561,6 +600,7 @@ func verifMaterialise(t *verifTree) string {
 		verifFS = t.copy()
 		verifHandles = map[*os.File]int{}
 		verifHandleKeeps = nil
+		verifScratch = nil
 		verifOSCalls = nil
 		verifOpenFault = false
 		verifCopyReadFault = false
@@ -608,7 +648,11 @@ func verifCleanup() {
 // that exist outside the universe (native run).
 func verifReadTree(paths []string, root string) (*verifTree, []string) {
 	if vrt.Symbolic() {
-		return verifFS.copy(), nil
+		var extra []string
+		for _, sc := range verifScratch {
+			extra = append(extra, strings.TrimPrefix(sc, verifModelRoot))
+		}
+		return verifFS.copy(), extra
 	}
 	t := &verifTree{paths: paths, kind: make([]int, len(paths)), content: make([]int, len(paths))}
 	var extra []string
